@@ -1,0 +1,149 @@
+//go:build verif
+
+package cbor
+
+// Contracts for govc (comment-only; compiled only with -tags verif).
+// Spec functions: cborHead(t, n) is the RFC 8949 shortest-form head of major
+// type t with argument n, defined by the two axioms below (its length and
+// every one of its bytes).
+
+//@ def aiOf(n uint64) byte = n < 24 ? byte(n) : (n < 256 ? 24 : (n < 65536 ? 25 : (n < 4294967296 ? 26 : 27)))
+//@ def nfOf(n uint64) int = n < 24 ? 0 : (n < 256 ? 1 : (n < 65536 ? 2 : (n < 4294967296 ? 4 : 8)))
+//@ uf cborHead(byte, uint64) bytes
+//@ axiom cborHead_intro: forall a bytearray, o int, l int, t byte, n uint64 :: (l == 1 + nfOf(n) && a[o] == (t | aiOf(n)) && (forall k int :: 0 <= k && k < nfOf(n) ==> a[o+1+k] == byte(n >> (8*uint64(nfOf(n)-1-k))))) ==> mkbytes(a, o, l) == cborHead(t, n)
+
+//@ func (*Encoder).encodeTypedUint
+//@   arith bv
+//@   props C11 C19 C04
+//@   requires e.w != nil && !failed(e.w)
+//@   ensures failed(e.w) == (result != nil)
+//@   ensures result == nil ==> accepted(e.w) == old(accepted(e.w)) + 1 + nfOf(n)
+//@   ensures result == nil ==> content(e.w) == cat(old(content(e.w)), cborHead(byte(t), n))
+//@   ensures accepted(e.w) >= old(accepted(e.w)) && accepted(e.w) <= old(accepted(e.w)) + 1 + nfOf(n)
+//@   assigns accepted(e.w), failed(e.w), content(e.w)
+//@   loop 0:
+//@     invariant len(encoded) == 1 + nfollow && nfollow == nfOf(old(n)) && -1 <= i && i < nfollow
+//@     invariant encoded[0] == (byte(t) | aiOf(old(n)))
+//@     invariant n == old(n) >> (8*uint64(nfollow-1-i))
+//@     invariant forall k int :: i < k && k < nfollow ==> encoded[k+1] == byte(old(n) >> (8*uint64(nfollow-1-k)))
+//@     decreases i + 1
+
+//@ func (*Encoder).EncodeUint
+//@   props C11 C19
+//@   requires e.w != nil && !failed(e.w)
+//@   ensures failed(e.w) == (result != nil)
+//@   ensures result == nil ==> content(e.w) == cat(old(content(e.w)), cborHead(0, n))
+//@   ensures result == nil ==> accepted(e.w) == old(accepted(e.w)) + 1 + nfOf(n)
+//@   ensures accepted(e.w) >= old(accepted(e.w)) && accepted(e.w) <= old(accepted(e.w)) + 1 + nfOf(n)
+//@   assigns accepted(e.w), failed(e.w), content(e.w)
+
+//@ func (*Encoder).EncodeInt
+//@   props C11 C19
+//@   requires e.w != nil && !failed(e.w)
+//@   ensures failed(e.w) == (result != nil)
+//@   ensures result == nil && n >= 0 ==> content(e.w) == cat(old(content(e.w)), cborHead(0, uint64(n)))
+//@   ensures result == nil && n < 0 ==> content(e.w) == cat(old(content(e.w)), cborHead(32, uint64(-1 - n)))
+//@   assigns accepted(e.w), failed(e.w), content(e.w)
+
+//@ func (*Encoder).EncodeArrayHeader
+//@   props C11 C19
+//@   requires e.w != nil && !failed(e.w)
+//@   ensures failed(e.w) == (result != nil)
+//@   ensures result == nil ==> content(e.w) == cat(old(content(e.w)), cborHead(128, uint64(n)))
+//@   ensures result == nil ==> accepted(e.w) == old(accepted(e.w)) + 1 + nfOf(uint64(n))
+//@   ensures accepted(e.w) >= old(accepted(e.w)) && accepted(e.w) <= old(accepted(e.w)) + 1 + nfOf(uint64(n))
+//@   assigns accepted(e.w), failed(e.w), content(e.w)
+
+//@ func (*Encoder).encodeMapHeader
+//@   props C11 C19
+//@   requires e.w != nil && !failed(e.w)
+//@   ensures failed(e.w) == (result != nil)
+//@   ensures result == nil ==> content(e.w) == cat(old(content(e.w)), cborHead(160, uint64(n)))
+//@   ensures result == nil ==> accepted(e.w) == old(accepted(e.w)) + 1 + nfOf(uint64(n))
+//@   ensures accepted(e.w) >= old(accepted(e.w)) && accepted(e.w) <= old(accepted(e.w)) + 1 + nfOf(uint64(n))
+//@   assigns accepted(e.w), failed(e.w), content(e.w)
+
+//@ func (*Encoder).encodeBytes
+//@   props C11 C19
+//@   requires e.w != nil && !failed(e.w)
+//@   ensures failed(e.w) == (result != nil)
+//@   ensures result == nil ==> content(e.w) == cat(cat(old(content(e.w)), cborHead(byte(t), uint64(len(bs)))), bytes(bs))
+//@   ensures result == nil ==> accepted(e.w) == old(accepted(e.w)) + 1 + nfOf(uint64(len(bs))) + len(bs)
+//@   ensures accepted(e.w) >= old(accepted(e.w)) && accepted(e.w) <= old(accepted(e.w)) + 1 + nfOf(uint64(len(bs))) + len(bs)
+//@   assigns accepted(e.w), failed(e.w), content(e.w)
+
+//@ func (*Encoder).EncodeByteString
+//@   props C11 C19
+//@   requires e.w != nil && !failed(e.w)
+//@   ensures failed(e.w) == (result != nil)
+//@   ensures result == nil ==> content(e.w) == cat(cat(old(content(e.w)), cborHead(64, uint64(len(bs)))), bytes(bs))
+//@   ensures result == nil ==> accepted(e.w) == old(accepted(e.w)) + 1 + nfOf(uint64(len(bs))) + len(bs)
+//@   ensures accepted(e.w) >= old(accepted(e.w)) && accepted(e.w) <= old(accepted(e.w)) + 1 + nfOf(uint64(len(bs))) + len(bs)
+//@   assigns accepted(e.w), failed(e.w), content(e.w)
+
+//@ func (*Encoder).EncodeTextString
+//@   props C11 C19
+//@   requires e.w != nil && !failed(e.w)
+//@   ensures failed(e.w) ==> result != nil
+//@   ensures !utf8valid(bytes(s)) ==> result == ErrInvalidUTF8 && accepted(e.w) == old(accepted(e.w)) && content(e.w) == old(content(e.w)) && !failed(e.w)
+//@   ensures utf8valid(bytes(s)) ==> failed(e.w) == (result != nil)
+//@   ensures result == nil ==> content(e.w) == cat(cat(old(content(e.w)), cborHead(96, uint64(len(s)))), bytes(s))
+//@   ensures result == nil ==> accepted(e.w) == old(accepted(e.w)) + 1 + nfOf(uint64(len(s))) + len(s)
+//@   ensures accepted(e.w) >= old(accepted(e.w)) && accepted(e.w) <= old(accepted(e.w)) + 1 + nfOf(uint64(len(s))) + len(s)
+//@   assigns accepted(e.w), failed(e.w), content(e.w)
+
+//@ func (*Encoder).EncodeBool
+//@   arith bv
+//@   props C11 C19
+//@   requires e.w != nil && !failed(e.w)
+//@   ensures failed(e.w) == (result != nil)
+//@   ensures result == nil ==> content(e.w) == cat(old(content(e.w)), cborHead(224, b ? 21 : 20))
+//@   ensures result == nil ==> accepted(e.w) == old(accepted(e.w)) + 1
+//@   ensures accepted(e.w) >= old(accepted(e.w)) && accepted(e.w) <= old(accepted(e.w)) + 1
+//@   assigns accepted(e.w), failed(e.w), content(e.w)
+
+// ---- decoder (C12): reads are specified over the reader's ghost stream
+// (sdata, spos, send), see /verif/govc/stdlib/io.spec.
+
+//@ def nfOfAI(ai byte) int = ai == 24 ? 1 : (ai == 25 ? 2 : (ai == 26 ? 4 : (ai == 27 ? 8 : 0)))
+
+//@ func (*Decoder).ReadByte
+//@   props C12 C10
+//@   returns (b, err)
+//@   requires d.r != nil
+//@   ensures err == nil ==> spos(d.r) == old(spos(d.r)) + 1 && b == sdata(d.r)[old(spos(d.r))]
+//@   ensures err != nil ==> spos(d.r) == old(spos(d.r))
+//@   ensures spos(d.r) <= send(d.r)
+//@   assigns spos(d.r)
+
+//@ func (*Decoder).decodeTypedUint
+//@   arith bv
+//@   props C12 C10
+//@   returns (t, n, err)
+//@   requires d.r != nil
+//@   ensures[reserved-ai-refused] err == nil ==> (sdata(d.r)[old(spos(d.r))] & 31) < 28
+//@   ensures err == nil ==> byte(t) == (sdata(d.r)[old(spos(d.r))] & 224)
+//@   ensures err == nil ==> spos(d.r) == old(spos(d.r)) + 1 + nfOfAI(sdata(d.r)[old(spos(d.r))] & 31)
+//@   ensures err == nil && nfOfAI(sdata(d.r)[old(spos(d.r))] & 31) == 0 ==> n == uint64(sdata(d.r)[old(spos(d.r))] & 31)
+//@   ensures err == nil ==> forall k int :: 0 <= k && k < nfOfAI(sdata(d.r)[old(spos(d.r))] & 31) ==> byte(n >> (8*uint64(nfOfAI(sdata(d.r)[old(spos(d.r))] & 31)-1-k))) == sdata(d.r)[old(spos(d.r)) + 1 + k]
+//@   ensures err == nil && 0 < nfOfAI(sdata(d.r)[old(spos(d.r))] & 31) && nfOfAI(sdata(d.r)[old(spos(d.r))] & 31) < 8 ==> n < uint64(1) << (8*uint64(nfOfAI(sdata(d.r)[old(spos(d.r))] & 31)))
+//@   ensures spos(d.r) >= old(spos(d.r)) && spos(d.r) <= send(d.r)
+//@   assigns spos(d.r)
+//@   loop 0:
+//@     invariant 0 <= i && i <= nfollow && len(follow) == nfollow && 1 <= nfollow && nfollow <= 8
+//@     invariant forall k int :: 0 <= k && k < i ==> byte(n >> (8*uint64(i-1-k))) == follow[k]
+//@     invariant i < 8 ==> n < uint64(1) << (8*uint64(i))
+//@     decreases nfollow - i
+
+//@ func (*Decoder).decodeOfType
+//@   arith bv
+//@   props C12 C10
+//@   returns (n, err)
+//@   requires d.r != nil
+//@   ensures err == nil ==> (sdata(d.r)[old(spos(d.r))] & 224) == byte(expected) && (sdata(d.r)[old(spos(d.r))] & 31) < 28
+//@   ensures err == nil ==> spos(d.r) == old(spos(d.r)) + 1 + nfOfAI(sdata(d.r)[old(spos(d.r))] & 31)
+//@   ensures err == nil && nfOfAI(sdata(d.r)[old(spos(d.r))] & 31) == 0 ==> n == uint64(sdata(d.r)[old(spos(d.r))] & 31)
+//@   ensures err == nil ==> forall k int :: 0 <= k && k < nfOfAI(sdata(d.r)[old(spos(d.r))] & 31) ==> byte(n >> (8*uint64(nfOfAI(sdata(d.r)[old(spos(d.r))] & 31)-1-k))) == sdata(d.r)[old(spos(d.r)) + 1 + k]
+//@   ensures err == nil && 0 < nfOfAI(sdata(d.r)[old(spos(d.r))] & 31) && nfOfAI(sdata(d.r)[old(spos(d.r))] & 31) < 8 ==> n < uint64(1) << (8*uint64(nfOfAI(sdata(d.r)[old(spos(d.r))] & 31)))
+//@   ensures spos(d.r) >= old(spos(d.r)) && spos(d.r) <= send(d.r)
+//@   assigns spos(d.r)
